@@ -170,6 +170,8 @@ class Operand(ABC):
             return self
 
         fits_direct = self.value.is_direct() and self.value.int < 0x100 and not self.value.is_negative()
+        if old_value.is_explicit_extended():
+            fits_direct = False
         if self.value.is_numeric() and (fits_direct or old_value.is_explicit_direct()):
             return DirectOperand(self.operand_string, self.instruction, self.value)
 
